@@ -7,7 +7,7 @@ from vt.core import (R, rng_for, dn, dnb, rand_cores, lowrank_cores, tt_from, ra
 ID = 'C05'
 LEVEL = 'exploration'
 RULE = ('complete enumeration of order x row dims x rank vector x dtype x value family (generic, rank-deficient '
-        'unfoldings, small-int) x EVERY split index x (ortho_l, ortho_r) flags (False only on an already orthonormal '
+        'unfoldings, small-int) x overall scale {1, 1e-12, 1e10} x EVERY split index x (ortho_l, ortho_r) flags (False only on an already orthonormal '
         'side) x overwrite x threshold {0,1e-10} x max_rank {inf,1,2}; svd and pinv at each point. Non-trivial: order '
         '>= 3, a rank-deficient unfolding, complex data, a disabled sweep, overwrite or truncation.')
 ASSUMPTIONS = ['numpy.linalg.svd / pinv of the dense unfolding are the reference', 'column dimensions 1 (D2)',
@@ -32,7 +32,10 @@ def cases(tier):
                         if d == 4 and fam == 'int':
                             continue
                         for idx in range(1, d):
-                            yield {'rows': list(rows), 'r': rk, 'c': c, 'fam': fam, 'idx': idx}
+                            for scale in (1.0, 1e-12, 1e10):
+                                if scale != 1.0 and fam == 'int':
+                                    continue
+                                yield {'rows': list(rows), 'r': rk, 'c': c, 'fam': fam, 'idx': idx, 'scale': scale}
 
 
 def run_case(case, seed):
@@ -44,6 +47,7 @@ def run_case(case, seed):
         cores0 = lowrank_cores(rng, rows, [1] * d, rk, c, 1)
     else:
         cores0 = rand_cores(rng, rows, [1] * d, rk, c, fam)
+    cores0[0] = cores0[0] * case.get('scale', 1.0)     # relative cuts must not depend on the scale of the tensor
     a = dn(tt_from(cores0)).reshape(rows)
     m = int(np.prod(rows[:idx])); n = int(np.prod(rows[idx:]))
     A = a.reshape(m, n)
@@ -54,7 +58,7 @@ def run_case(case, seed):
     nrank = int(np.sum(sref > 1e-11 * sref[0]))
     deficient = nrank < min(m, n)
     r.nontrivial = True
-    sc = max(1.0, sref[0])
+    sc = sref[0]
     for ol, orr, ow, thr, mr in itertools.product([True, False], [True, False], [False, True], [0, 1e-10], [np.inf, 1, 2]):
         T = tt_from(cores0)
         if not ol:
@@ -83,11 +87,11 @@ def run_case(case, seed):
                 r.true(key + ':s-sorted', np.all(np.diff(s) <= 1e-12 * sc) and np.all(np.asarray(s) >= 0))
                 if mr == np.inf:
                     kk = min(k, len(sref))
-                    r.close(key + ':singular-values', np.asarray(s)[:kk], sref[:kk], 1e-10)
+                    r.close(key + ':singular-values', np.asarray(s)[:kk] / sc, sref[:kk] / sc, 1e-10)
                     r.true(key + ':singular-values-complete', np.all(sref[k:] <= 1e-9 * sc), 'dropped %s' % sref[k:])
                     if thr != 0:
                         r.true(key + ':threshold-cut', k == nrank, 'kept %d numerical rank %d' % (k, nrank))
-                    r.close(key + ':reconstruction', (U * np.asarray(s)) @ V, A, 1e-10)
+                    r.close(key + ':reconstruction', (U * np.asarray(s)) @ V / sc, A / sc, 1e-10)
                 else:
                     r.true(key + ':rank-cap', k <= mr and (not ol or all(x <= mr for x in u.ranks[1:])) and
                            (not orr or all(x <= mr for x in v.ranks[:-1])),   # a disabled sweep caps nothing on its side
